@@ -51,6 +51,13 @@ func escapingLocals(body *ast.BlockStmt, info *types.Info, d *Decls) map[types.O
 
 // bindLocal assigns a value to a local variable, moving escaping struct locals to the heap.
 func (c *FnCtx) bindLocal(st *State, v *types.Var, val Term, pos token.Pos) {
+	if cur, ok := st.vars[v]; ok && cur.Cell {
+		// assignment to a local whose address was taken: write its heap cell
+		key := "P:" + typeShortName(v.Type())
+		arr := c.heapGet(st, key, arraySort(sV, c.e.d.sortOf(v.Type())))
+		c.heapSet(st, key, Term{S: sSto(arr.S, cur.S, val.S), Sort: arr.Sort})
+		return
+	}
 	if c.escaping[v] && val.Sort.Kind == KStruct {
 		n, stt, _ := derefNamedStruct(v.Type())
 		var ref Term
